@@ -35,10 +35,15 @@ func main() {
 		fmt.Println("HARNESS-ERROR", err)
 		os.Exit(2)
 	}
-	// sequential reference
+	// The sequential reference is computed AFTER the concurrent rounds (VERIF_RACEPASS_REF_FIRST=1 restores the old
+	// order): state that is filled in lazily on first use (a cached width, a parsed table) would otherwise be
+	// written by the reference run, and the concurrent runs would only ever read it.
 	ref := make([]string, len(bodies))
-	for i, b := range bodies {
-		ref[i] = safeRun(b.Run, 0)
+	refFirst := os.Getenv("VERIF_RACEPASS_REF_FIRST") == "1"
+	if refFirst {
+		for i, b := range bodies {
+			ref[i] = safeRun(b.Run, 0)
+		}
 	}
 	type diff struct {
 		Body string `json:"body"`
@@ -47,6 +52,34 @@ func main() {
 	}
 	var diffs []diff
 	runs := 0
+	type obs struct {
+		body int
+		out  string
+	}
+	var all []obs
+	// Phase A: every body once, all goroutines on the SAME body at the same moment: whatever the implementation
+	// works out lazily on first use (and keeps in shared state) is then written and read by several goroutines
+	// within the same instant, before anything has run alone.
+	for i := range bodies {
+		var wg sync.WaitGroup
+		start := make(chan struct{})
+		outs := make([]string, g)
+		for k := 0; k < g; k++ {
+			wg.Add(1)
+			go func(k int) {
+				defer wg.Done()
+				<-start
+				outs[k] = safeRun(bodies[i].Run, k+1)
+			}(k)
+		}
+		close(start)
+		wg.Wait()
+		for k := 0; k < g; k++ {
+			runs++
+			all = append(all, obs{i, outs[k]})
+		}
+	}
+	// Phase B: rotating mix of different bodies
 	for r := 0; r < rounds; r++ {
 		var wg sync.WaitGroup
 		start := make(chan struct{})
@@ -72,10 +105,18 @@ func main() {
 		for k := 0; k < g; k++ {
 			for i := range bodies {
 				runs++
-				if outs[k][i] != ref[i] && !bodies[i].Varies {
-					diffs = append(diffs, diff{bodies[i].Name, trim(ref[i]), trim(outs[k][i])})
-				}
+				all = append(all, obs{i, outs[k][i]})
 			}
+		}
+	}
+	if !refFirst {
+		for i, b := range bodies {
+			ref[i] = safeRun(b.Run, 0)
+		}
+	}
+	for _, o := range all {
+		if o.out != ref[o.body] && !bodies[o.body].Varies {
+			diffs = append(diffs, diff{bodies[o.body].Name, trim(ref[o.body]), trim(o.out)})
 		}
 	}
 	var names []string
